@@ -14,7 +14,8 @@ PROPS = ("C01", "C07", "C08", "C10", "C11", "C19", "C20")
 PLAN = {
     "C07": dict(modes={"quick": [("match", 48, 40)], "thorough": [("match", 400, 60), ("wrap", 1, 66000)]},
                 mc={"quick": [("match", 6, {})], "thorough": [("match", 8, {})]}),
-    "C08": dict(modes={"quick": [("dispatch", 64, 40), ("tokens", 16, 40), ("net", 8, 40)], "thorough": [("dispatch", 800, 60), ("tokens", 200, 60), ("net", 64, 60)]},
+    "C08": dict(modes={"quick": [("dispatch", 64, 40), ("tokens", 16, 40), ("match", 16, 40), ("net", 8, 40)],
+                       "thorough": [("dispatch", 800, 60), ("tokens", 200, 60), ("match", 100, 60), ("net", 64, 60)]},
                 mc={"quick": [("dispatch", 4, {})], "thorough": [("dispatch", 5, {}), ("dispatch", 4, {"Passive": "TRUE"})]}),
     "C10": dict(modes={"quick": [("tokens", 48, 40), ("dispatch", 16, 40), ("net", 8, 40)],
                        "thorough": [("tokens", 600, 60), ("dispatch", 200, 60), ("net", 64, 60)]},
